@@ -438,6 +438,9 @@ func runC07(ctx *common.Ctx) error {
 	if err := w.startupScenario(); err != nil {
 		return fmt.Errorf("scenario startup: %w", err)
 	}
+	if err := w.resurrectScenario(); err != nil {
+		return fmt.Errorf("scenario resurrect: %w", err)
+	}
 	if err := w.redownloadScenario(); err != nil {
 		return fmt.Errorf("scenario redownload: %w", err)
 	}
